@@ -63,6 +63,7 @@ type c16Log struct {
 }
 
 func c16Run(t *testing.T, c c16Case) (sig string, err error) {
+	defer evid.DeadlockWatch("C16", "TestC16Shutdown", c, "kmip-go/kmipserver")()
 	var res c08Result
 	perr := safely(func() error {
 		synctest.Test(t, func(st *testing.T) { res = c16Bubble(c) })
